@@ -55,14 +55,28 @@ def whole_pass(a, lp, is_seq):
         if ok and none and exits <= none:
             return dict(kind='iterator', elem=lambda z, it=it: z == it, elem_expr=it, exhaust=none, counter=None)
     # -- index form
+    c = counting_loop(a, lp, lambda y: _is_len_of(y, is_seq))
+    if c is not None:
+        cnt = c['counter']
+        c.update(kind='index', elem=lambda z, cnt=cnt: z[0] == 'index' and is_seq(z[1]) and z[2] == cnt, elem_expr=None)
+        return c
+    return None
+
+
+def counting_loop(a, lp, bound_pred, strict=True):
+    """`i = 0; while i < BOUND { ..; i += 1 }` in any spelling: a counter with one definition outside the loop (the
+    constant 0) and one `+= 1` inside that every iteration passes; the only non-error exits are the edges on which
+    counter >= BOUND, where bound_pred(BOUND expr) (with strict=False other exits — early returns — are allowed).  Returns dict(counter, exhaust, incr_block) or None."""
+    head, blks = lp
+    exits = _exits(a, blks)
     for b in sorted(blks):
         ce = cond_edges(a, b)
         if not ce:
             continue
         op, l, r, te, fe = ce
         for (o, x, y, t_e, f_e) in ((op, l, r, te, fe), (_SWAP[op], r, l, te, fe)):
-            # canonical: counter OP len(seq)
-            if x[0] != 'local' or not _is_len_of(y, is_seq):
+            # canonical: counter OP bound
+            if x[0] != 'local' or not bound_pred(y):
                 continue
             if o in ('Lt', 'Ne'):
                 stay, leave = t_e, f_e
@@ -71,7 +85,7 @@ def whole_pass(a, lp, is_seq):
             else:
                 continue
             leave = set(leave)
-            if not leave or not exits <= leave:
+            if not leave or (strict and not exits <= leave):
                 continue
             i = x[1]
             ds = a.flow.defs.get(i, [])
@@ -87,12 +101,10 @@ def whole_pass(a, lp, is_seq):
                 continue
             if len([h for h, bb in a.cfg.loops().items() if ib in bb and h in blks]) != 1:
                 continue        # the increment sits in an inner loop
-            # every iteration increments: no latch reachable from the head without leaving the increment's block
             if not every_iteration_passes(a, lp, ib):
                 continue
             cnt = ('local', i, a.flow.lname(i))
-            return dict(kind='index', elem=lambda z, cnt=cnt: z[0] == 'index' and is_seq(z[1]) and z[2] == cnt, elem_expr=None, exhaust=leave, counter=cnt,
-                        incr_block=ib)
+            return dict(kind='count', counter=cnt, exhaust=leave, incr_block=ib, bound=y)
     return None
 
 
